@@ -65,6 +65,15 @@ pub mod fnv1a64 {
         hash_sdm_type(state, schema).to_le_bytes()
     }
 
+    /// Verification hook: run the const hasher on a schema supplied at run time
+    /// (same two steps as [`hash_ty_path`]). Only built with `verif-hooks`.
+    #[cfg(feature = "verif-hooks")]
+    #[doc(hidden)]
+    pub fn verif_hash_schema_path(path: &str, schema: &'static DataModelType) -> [u8; 8] {
+        let state = hash_update_str(Fnv1a64Hasher::BASIS, path);
+        hash_sdm_type(state, schema).to_le_bytes()
+    }
+
     pub(crate) const fn hash_update(mut state: u64, bytes: &[u8]) -> u64 {
         let mut idx = 0;
         while idx < bytes.len() {
